@@ -5,7 +5,20 @@ import QV.C09.Spec
 namespace QV.C09
 open QV QV.Prog
 
+/-- further views: body, calibrations, frames, extern pragmas, `filter_instructions(|_| true)`, `len`,
+`is_empty`, and the names of sibling-entry-point relations that FAILED in the harness -/
+structure Aux where
+  body : List Instr
+  cals : List Instr
+  frames : List Instr
+  exts : List Instr
+  filt : List Instr
+  len : Nat
+  empty : Bool
+  sib : List String
+
 structure Out where
+  aux : Aux
   /-- how often the harness' independent key and the implementation's key equality disagreed -/
   keymm : Nat
   fresh : List Instr
@@ -17,7 +30,10 @@ def decOut (tbl : List Instr) : Sexp → Option Out
   | .list [.atom "views", .list (.atom "new" :: nw), .list [.atom "to", a], .list [.atom "into", b],
            .list [.atom "rebuilt", c], .list [.atom "text", .str t], .list [.atom "rtext", .str rt],
            .list [.atom "eq", e], .list [.atom "used", u], .list [.atom "rused", ru],
-           .list [.atom "keymm", km]] => do
+           .list [.atom "keymm", km],
+           .list [.atom "aux", .list [.atom "body", ab], .list [.atom "cals", ac], .list [.atom "frames", af],
+             .list [.atom "exts", ae], .list [.atom "filt", afl], .list [.atom "len", al],
+             .list [.atom "empty", aem], .list (.atom "sib" :: sibs)]] => do
     let keymm ← km.asNat?
     let fresh ← nw.mapM decInstr
     let tbl := tbl ++ fresh
@@ -27,7 +43,10 @@ def decOut (tbl : List Instr) : Sexp → Option Out
     let eq ← decBool e
     let used ← decQubits u
     let rused ← decQubits ru
-    pure { keymm, fresh, v := { toL, intoL, rebuiltL, text := t, rebuiltText := rt, eq }, used, rused }
+    let aux : Aux := { body := ← decPids tbl ab, cals := ← decPids tbl ac, frames := ← decPids tbl af,
+                       exts := ← decPids tbl ae, filt := ← decPids tbl afl, len := ← al.asNat?,
+                       empty := ← decBool aem, sib := ← sibs.mapM Sexp.asStr? }
+    pure { aux, keymm, fresh, v := { toL, intoL, rebuiltL, text := t, rebuiltText := rt, eq }, used, rused }
   | _ => none
 
 /-- calibrations of the history that are later replaced (not the last with their kind and key) -/
@@ -58,17 +77,35 @@ def handle (inp out : Sexp) : CaseResult :=
       let projOk := is.all Instr.projOk
       let agree := projOk && o.keymm == 0 && o.fresh.isEmpty && decide (mv.toL = o.v.toL) && decide (mv.intoL = o.v.intoL) &&
         decide (mv.rebuiltL = o.v.rebuiltL) && mv.text == o.v.text && mv.rebuiltText == o.v.rebuiltText &&
-        mv.eq == o.v.eq && setEq p.used o.used && setEq r.used o.rused
+        mv.eq == o.v.eq && setEq p.used o.used && setEq r.used o.rused &&
+        decide (p.body = o.aux.body) && decide (p.cals ++ p.mcals = o.aux.cals) &&
+        decide (p.frames = o.aux.frames) && decide (p.externs = o.aux.exts) &&
+        decide (toInstructions r = o.aux.filt) && p.len == o.aux.len && p.isEmpty == o.aux.empty &&
+        o.aux.sib.isEmpty
       let listingOk := checkListing is o.v.toL
       let viewsOk := viewsAgree o.v
-      let specOk := listingOk && viewsOk && o.v.eq && o.keymm == 0
+      -- the partial views are the corresponding parts of the copying listing, filtering with a constant-true
+      -- predicate changes nothing, and every sibling-entry-point relation held
+      let auxOk := decide (o.aux.body = ofKind .body o.v.toL) &&
+        decide (o.aux.cals = ofKind .cal o.v.toL ++ ofKind .mcal o.v.toL) &&
+        decide (o.aux.frames = ofKind .frame o.v.toL) && decide (o.aux.exts = ofKind .extern o.v.toL) &&
+        decide (o.aux.filt = o.v.toL) && o.aux.sib.isEmpty
+      let specOk := listingOk && viewsOk && o.v.eq && o.keymm == 0 && auxOk
       -- known finding: everything but `==` holds, and every qubit the original has beyond the rebuilt
       -- program belongs to a calibration that a later one with the same signature replaced
       let stale := o.used.filter (fun q => !o.rused.contains q)
-      let kf := o.keymm == 0 && listingOk && viewsOk && !o.v.eq && subset o.rused o.used && !stale.isEmpty &&
+      let kf := auxOk && o.keymm == 0 && listingOk && viewsOk && !o.v.eq && subset o.rused o.used && !stale.isEmpty &&
         stale.all (fun q => (qubitsOf (replacedCals is)).contains q)
       let nontrivial := decide (mTo ≠ is)
-      let tags := s!"path-{path}" :: histTags is ++
+      let flavour : List String :=
+        if is.isEmpty then ["flavour-empty"]
+        else if mTo.all (fun i => i.kind == .mcal) then ["flavour-only-mcal"]
+        else if mTo.all (fun i => i.kind == .cal) then ["flavour-only-cal"]
+        else if mTo.all (fun i => i.kind == .cal || i.kind == .mcal) then ["flavour-only-calibrations"]
+        else if mTo.all (fun i => i.kind == .extern) then ["flavour-only-extern"]
+        else if mTo.all (fun i => i.kind != .body) then ["flavour-only-definitions"]
+        else if mTo.all (fun i => i.kind == .body) then ["flavour-only-body"] else []
+      let tags := s!"path-{path}" :: histTags is ++ flavour ++
         (if mv.eq then ["eq"] else ["neq"]) ++ (if o.keymm == 0 then [] else ["key-mismatch"]) ++
         (if kf then ["kf:C09/rebuilt-unequal-after-redefined-calibration"] else [])
       { agree, specOk, nontrivial, tags,
@@ -76,7 +113,7 @@ def handle (inp out : Sexp) : CaseResult :=
           s!"rebuilt={showListing mv.rebuiltL} eq={mv.eq} used={showQubits p.used} rused={showQubits r.used} | " ++
           s!"impl: to={showListing o.v.toL} into={showListing o.v.intoL} rebuilt={showListing o.v.rebuiltL} " ++
           s!"eq={o.v.eq} used={showQubits o.used} rused={showQubits o.rused} new={showListing o.fresh} " ++
-          s!"textEq={mv.text == o.v.text} rtextEq={o.v.rebuiltText == o.v.text} | listingOk={listingOk} viewsOk={viewsOk} projOk={projOk} keyMismatches={o.keymm}" }
+          s!"textEq={mv.text == o.v.text} rtextEq={o.v.rebuiltText == o.v.text} | listingOk={listingOk} viewsOk={viewsOk} projOk={projOk} keyMismatches={o.keymm} auxOk={auxOk} failedSiblingRelations={o.aux.sib} len={o.aux.len}/{p.len} empty={o.aux.empty}/{p.isEmpty}" }
   | _ => .bad s!"undecodable input {inp}"
 
 end QV.C09
